@@ -58,6 +58,9 @@ type Violation struct {
 	Draws   []Draw        `json:"draws"`
 	Obs     []Observation `json:"observations,omitempty"`
 	Count   int           `json:"count"`
+	// EngineOnly: the violation is a property of the execution itself (an unsynchronised store, an
+	// injected fault) that the native run of the harness cannot observe.
+	EngineOnly bool `json:"engine_only,omitempty"`
 }
 
 type Witness struct {
@@ -583,6 +586,16 @@ func (ex *explorer) showValue(v value) string {
 		return fmt.Sprint(x)
 	}
 	return fmt.Sprintf("<%T>", v)
+}
+
+func (ex *explorer) violationEngineOnly(kind, msg, where string) {
+	ex.violation(kind, msg, where)
+	s := ex.shared
+	s.mu.Lock()
+	if v, ok := s.Violations[kind+":"+msg]; ok {
+		v.EngineOnly = true
+	}
+	s.mu.Unlock()
 }
 
 func (ex *explorer) violation(kind, msg, where string) {
